@@ -70,8 +70,8 @@ inductive LStep (idx : Nat → Nat) (arr : Nat → Int) (cache : Nat → Option 
       LStep idx arr cache ⟨.idle, .exit :: r, rest, j :: t, book⟩ .begin arr cache ⟨.exRel, r, rest, j :: t, book⟩
   | idle_raise {r rest stack book} :
       LStep idx arr cache ⟨.idle, .raise :: r, rest, stack, book⟩ .raiseBody arr cache (toUnwind ⟨.idle, .raise :: r, rest, stack, book⟩)
-  | idle_rmv {k r rest stack book} :
-      LStep idx arr cache ⟨.idle, .rmv k :: r, rest, stack, book⟩ .begin arr cache ⟨.rmChk k, r, rest, stack, book⟩
+  | idle_rmv {k f r rest stack book} :
+      LStep idx arr cache ⟨.idle, .rmv k f :: r, rest, stack, book⟩ .begin arr cache ⟨.rmChk k f, r, rest, stack, book⟩
   | idle_close {rest j t book} :
       LStep idx arr cache ⟨.idle, [], rest, j :: t, book⟩ .begin arr cache ⟨.exRel, [], rest, j :: t, book⟩
   | idle_next {seg more book} :
@@ -117,19 +117,24 @@ inductive LStep (idx : Nat → Nat) (arr : Nat → Int) (cache : Nat → Option 
   | exRel {k t cur rest book} :
       LStep idx arr cache ⟨.exRel, cur, rest, k :: t, book⟩ (.relR k) (upd arr (idx k) (arr (idx k) - 1)) cache
         ⟨.idle, cur, rest, t, upd book k (book k - 1)⟩
-  | rmChk_raise {k v cur rest stack book} : cache k = some v → k ∈ stack →
-      LStep idx arr cache ⟨.rmChk k, cur, rest, stack, book⟩ (.contains k true) arr cache (toUnwind ⟨.rmChk k, cur, rest, stack, book⟩)
-  | rmChk_go {k v cur rest stack book} : cache k = some v → k ∉ stack →
-      LStep idx arr cache ⟨.rmChk k, cur, rest, stack, book⟩ (.contains k true) arr cache ⟨.rmAcqW k, cur, rest, stack, book⟩
-  | rmChk_absent {k cur rest stack book} : cache k = none →
-      LStep idx arr cache ⟨.rmChk k, cur, rest, stack, book⟩ (.contains k false) arr cache ⟨.idle, cur, rest, stack, book⟩
-  | rmAcqW_ok {k cur rest stack book} : arr (idx k) = 0 →
-      LStep idx arr cache ⟨.rmAcqW k, cur, rest, stack, book⟩ (.acqW k) (upd arr (idx k) (-1)) cache
-        ⟨.rmRemove k, cur, rest, stack, upd book k (-1)⟩
-  | rmAcqW_spin {k cur rest stack book} : ¬ arr (idx k) = 0 →
-      LStep idx arr cache ⟨.rmAcqW k, cur, rest, stack, book⟩ .spin arr cache ⟨.rmAcqW k, cur, rest, stack, book⟩
+  | rmChk_raise {k f v cur rest stack book} : cache k = some v → k ∈ stack →
+      LStep idx arr cache ⟨.rmChk k f, cur, rest, stack, book⟩ (.contains k true) arr cache (toUnwind ⟨.rmChk k f, cur, rest, stack, book⟩)
+  | rmChk_go {k f v cur rest stack book} : cache k = some v → k ∉ stack →
+      LStep idx arr cache ⟨.rmChk k f, cur, rest, stack, book⟩ (.contains k true) arr cache ⟨.rmAcqW k f, cur, rest, stack, book⟩
+  | rmChk_absent {k f cur rest stack book} : cache k = none →
+      LStep idx arr cache ⟨.rmChk k f, cur, rest, stack, book⟩ (.contains k false) arr cache ⟨.idle, cur, rest, stack, book⟩
+  | rmAcqW_ok {k f cur rest stack book} : arr (idx k) = 0 →
+      LStep idx arr cache ⟨.rmAcqW k f, cur, rest, stack, book⟩ (.acqW k) (upd arr (idx k) (-1)) cache
+        ⟨.rmRemove k f, cur, rest, stack, upd book k (-1)⟩
+  | rmAcqW_spin {k f cur rest stack book} : ¬ arr (idx k) = 0 →
+      LStep idx arr cache ⟨.rmAcqW k f, cur, rest, stack, book⟩ .spin arr cache ⟨.rmAcqW k f, cur, rest, stack, book⟩
+  | rmRemove_fail {k cur rest stack book} :
+      LStep idx arr cache ⟨.rmRemove k true, cur, rest, stack, book⟩ (.crmvFail k) arr cache ⟨.rmHRelW k, cur, rest, stack, book⟩
+  | rmHRelW {k cur rest stack book} :
+      LStep idx arr cache ⟨.rmHRelW k, cur, rest, stack, book⟩ (.relW k) (upd arr (idx k) 0) cache
+        (toUnwind ⟨.rmHRelW k, cur, rest, stack, upd book k 0⟩)
   | rmRemove {k cur rest stack book} :
-      LStep idx arr cache ⟨.rmRemove k, cur, rest, stack, book⟩ (.crmv k (cache k).isSome) arr (upd cache k none) ⟨.rmRelW k, cur, rest, stack, book⟩
+      LStep idx arr cache ⟨.rmRemove k false, cur, rest, stack, book⟩ (.crmv k (cache k).isSome) arr (upd cache k none) ⟨.rmRelW k, cur, rest, stack, book⟩
   | rmRelW {k cur rest stack book} :
       LStep idx arr cache ⟨.rmRelW k, cur, rest, stack, book⟩ (.relW k) (upd arr (idx k) 0) cache ⟨.idle, cur, rest, stack, upd book k 0⟩
   | unwind {k t rest book} :
@@ -483,7 +488,7 @@ theorem no_stuckC {idx arr cache} {c : Caller} (hp : pcOK cache c) (hnt : c.term
 theorem spin_pc {idx arr cache c a' ch' c'} (h : LStep idx arr cache c .spin a' ch' c') :
     a' = arr ∧ ch' = cache ∧ c' = c ∧
     ((∃ k g, c.pc = .gsAcqR k g ∧ arr (idx k) < 0) ∨ (∃ k g, c.pc = .gsAcqW k g ∧ arr (idx k) ≠ 0) ∨
-     (∃ k, c.pc = .rmAcqW k ∧ arr (idx k) ≠ 0)) := by
+     (∃ k f, c.pc = .rmAcqW k f ∧ arr (idx k) ≠ 0)) := by
   cases h <;> simp_all <;> omega
 
 theorem sumBy_pos (f : Caller → Nat) : ∀ (l : List Caller), 0 < sumBy f l → ∃ c ∈ l, 0 < f c := by
@@ -533,7 +538,7 @@ theorem exists_max (P : Caller → Prop) (f : Caller → Nat) : ∀ (l : List Ca
 def wantIdx (idx : Nat → Nat) (c : Caller) : Nat :=
   match c.pc with
   | .gsAcqW k _ => idx k
-  | .rmAcqW k => idx k
+  | .rmAcqW k _ => idx k
   | _ => 0
 
 theorem terminal_pc {c : Caller} (h : c.terminal = true) : c.pc = .idle ∧ c.stack = [] := by
@@ -553,7 +558,7 @@ theorem deadlock_free_core {idx : Nat → Nat} {s : St} (hI : Inv idx s)
   -- every caller that is not terminal sits at a lock guard that is false
   have hspin : ∀ (j : Nat) (c : Caller), s.cs[j]? = some c → c.terminal = false →
       ((∃ k g, c.pc = .gsAcqR k g ∧ s.arr (idx k) < 0) ∨ (∃ k g, c.pc = .gsAcqW k g ∧ s.arr (idx k) ≠ 0) ∨
-       (∃ k, c.pc = .rmAcqW k ∧ s.arr (idx k) ≠ 0)) := by
+       (∃ k f, c.pc = .rmAcqW k f ∧ s.arr (idx k) ≠ 0)) := by
     intro j c hj hnt
     have hsome := no_stuckC (idx := idx) (arr := s.arr) (hI.pc j c hj) hnt
     cases hc : stepC idx s.arr s.cache c with
@@ -932,7 +937,7 @@ theorem never_deadlocked' {idx : Nat → Nat} {progs : List (List (List Instr))}
 
 def cexIdx : Nat → Nat := fun k => k
 def cexProgs : List (List (List Instr)) :=
-  [[[.getSet 0 (.ok 1), .rmv 1]], [[.getSet 1 (.ok 2), .rmv 0]]]
+  [[[.getSet 0 (.ok 1), .rmv 1 false]], [[.getSet 1 (.ok 2), .rmv 0 false]]]
 def cexSched : List Nat := List.replicate 10 0 ++ List.replicate 10 1 ++ [0, 0, 0, 1, 1, 1]
 
 theorem cross_nesting_counterexample' :
